@@ -131,7 +131,7 @@ def _ndims_guard(res: Resolver, expr: ast.AST, obj: str) -> bool:
 
 
 # functions whose construction sites are still judged by the syntax-level idiom checks below
-_OLD_IDIOM_FUNCS = {"vector.Vector.cast", "vector.Vector.fillna"}
+_OLD_IDIOM_FUNCS: set = set()
 
 
 def _sites(ctx) -> None:
@@ -204,6 +204,11 @@ def _one_site2(ctx, s2) -> int:
     if s2.qual == "vector.Vector.new" or s2.top.qualname == "vector.Vector.new":
         ok, msg = _new_idiom2(ctx, s2, dts, datas)
         ctx.ob("a.site-typing", f, f"site:{_ord(ctx, f)}:{s2.sh(s2.dtype, 30)}", ok, msg if ok else "", s2.node, message=msg)
+        return 0
+    if s2.top.qualname in ("vector.Vector.cast", "vector.Vector.fillna"):
+        idiom = _cast_idiom2 if s2.top.qualname.endswith(".cast") else _fillna_idiom2
+        ok, msg = idiom(ctx, s2)
+        ctx.ob("a.site-typing", s2.top, f"site:{_ord(ctx, s2.top)}:{s2.sh(s2.dtype, 30)}", ok, msg if ok else "", s2.node, message=msg)
         return 0
     problems, notes = [], []
     for dt in dts:
@@ -402,6 +407,101 @@ def _copy_site2(ctx, s2) -> None:
             problems.append(f"`{rs}.copy({s2.sh(d, 60)})` labels values that are not {rs}'s own elements with {rs}'s dtype")
     ctx.ob("a.copy-callers", f, f"copy:{_ord(ctx, f)}", not problems, f"{rs}.copy({s2.sh(s2.data, 40)}): {rs}'s own elements",
            s2.node, message="; ".join(problems))
+
+
+def _cast_idiom2(ctx, s2):
+    """Vector.cast: the result stores a buffer; its dtype is either inferred from that buffer or DataType(target, nullable=flag) where
+    the flag starts False and is set exactly where a None is put into the buffer."""
+    from ..sites2 import const_dtype, leaves, strip_seq
+    from ..symx import NONE as SNONE
+    from ..symx import elements, show
+    it = s2.it
+    problems = []
+    buf = strip_seq(it, s2.data) if s2.data is not None else None
+    if buf is None or buf[0] != "obj":
+        raise AnalysisError("cast: result data is not tuple(<buffer>)")
+    for dt in leaves(s2.dtype):
+        if dt[0] == "call" and dt[1] == ("name", "infer_dtype") and len(dt[2]) == 1:
+            if strip_seq(it, dt[2][0]) != buf:
+                problems.append(f"dtype inferred from `{show(dt[2][0], it)[:40]}`, not from the result buffer")
+            continue
+        cd = const_dtype(dt)
+        if cd is None or not isinstance(cd[1], tuple) or cd[1][0] not in ("after", "loopvar"):
+            raise AnalysisError(f"cast: dtype `{show(dt, it)[:60]}` is not DataType(<target>, nullable=<flag set in the element loop>)")
+        _, flag, L = cd[1]
+        init = it.loops[L].carried.get(flag, (None, None))[0]
+        if init != ("const", "bool", False):
+            problems.append(f"`{flag}` does not start False")
+        sets = [(a[2], a[3]) for a in it.assign_log if a[0] == flag and a[1] == ("const", "bool", True)]
+        other_sets = [a for a in it.assign_log if a[0] == flag and a[1] != ("const", "bool", True) and L in a[3]]
+        if other_sets:
+            problems.append(f"`{flag}` is also assigned `{show(other_sets[0][1], it)[:30]}` in the element loop")
+        for e in elements(it, buf):
+            v = e.value if e.kind == "elem" else (e.term[2][0] if e.kind == "call" and e.term[2] else None)
+            if v == SNONE and (e.conds, e.loops) not in sets:
+                problems.append(f"a None is put into the result buffer without setting `{flag}`: the result would hold None under a "
+                                f"non-nullable dtype")
+    return (not problems, "; ".join(problems) if problems else "cast idiom: DataType(target, nullable=has_none) with has_none set "
+            "exactly where None is appended; otherwise inferred from the buffer")
+
+
+def _fillna_idiom2(ctx, s2):
+    """Vector.fillna: data are `value if x is None else x` over self (or over a fresh, promoted copy of self); the dtype is inferred,
+    or self's with nullability recomputed from the stored data, or (promotion path) the promoted kind made non-nullable only when
+    the fill value is not None."""
+    from ..sites2 import const_dtype, dtype_of, fill_of, leaves, single_element, strip_seq
+    from ..symx import NONE as SNONE
+    from ..symx import flatten_conds, kw, show
+    it = s2.it
+    f = s2.top
+    SELF = ("param", f.params[0])
+    val = ("param", f.params[1])
+    problems = []
+    fc = flatten_conds(s2.ev.conds)
+    for dt in leaves(s2.dtype):
+        if dt == SNONE:
+            continue
+        fo = [fill_of(it, d) for d in leaves(s2.data)]
+        cd = const_dtype(dt)
+        if cd is not None:
+            K, nn = cd
+            if nn is not False or not fo or any(x is None for x in fo):
+                raise AnalysisError(f"fillna: promoted-path site `{s2.sh(s2.call, 60)}` not recognised")
+            obj, v = fo[0]
+            if v != val:
+                problems.append(f"None is replaced by `{show(v, it)[:30]}`, not by the fill value")
+            if (("cmp", "Is", val, SNONE), False) not in fc:
+                problems.append("the non-nullable result is built although the fill value may be None")
+            if obj != ("call", ("attr", SELF, "copy"), (), ()):
+                problems.append(f"`{show(obj, it)[:30]}` is not a fresh copy of self")
+            prom = [e for e in it.events if e.kind == "call" and e.term[1] == ("attr", obj, "_promote") and len(e.term[2]) == 1]
+            if not prom or prom[0].term[2][0] != K or prom[0].seq > s2.ev.seq:
+                problems.append(f"the result kind `{show(K, it)[:30]}` is not the kind the copy was promoted to")
+            continue
+        if dt[0] == "call" and dt[1][0] == "attr" and dt[1][2] == "with_nullable":
+            if not all(dtype_of(b) == SELF for b in leaves(dt[1][1])):
+                problems.append(f"the dtype `{show(dt[1][1], it)[:30]}` is not self's")
+            arg = dt[2][0] if dt[2] else kw(dt, "nullable")
+            okflag = False
+            for a in leaves(arg):
+                if a[0] == "call" and a[1] == ("name", "any") and len(a[2]) == 1 and a[2][0][0] == "obj":
+                    se = single_element(it, a[2][0])
+                    if se is not None and len(se[0]) == 1 and not se[1]:
+                        src = it.loops[se[0][0]].iter
+                        if se[2] == ("cmp", "Is", ("elem", src, se[0][0]), SNONE) and strip_seq(it, src) == strip_seq(it, s2.data):
+                            okflag = True
+            if not okflag:
+                problems.append("the nullable flag is not `any(x is None for x in <the data stored>)`")
+            if not fo or any(x is None or x[0] != SELF or x[1] != val for x in fo):
+                problems.append("the data are not `value if x is None else x` over self's elements")
+            if any(pol and t[0] == "call" and t[1] == ("name", "<except>") and "TypeError" in show(t, it) for t, pol in fc):
+                problems.append("a fill value rejected by validate_scalar can reach the standard (non-promoting) path")
+            vs = [e for e in it.events if e.kind == "call" and e.term[1] == ("name", "validate_scalar")]
+            if not vs or vs[0].term[2][:1] != (val,):
+                problems.append("the fill value is never validated against self's dtype")
+            continue
+        raise AnalysisError(f"fillna: dtype `{show(dt, it)[:50]}` not recognised")
+    return (not problems, "; ".join(problems) if problems else "fillna idiom: validated fill value, nullable recomputed from the data")
 
 
 def _new_idiom2(ctx, s2, dts, datas):
